@@ -11,6 +11,24 @@ from . import astutil as A
 from .alg import Interp, NotHandled, Obj, Poly, PyFunc, Undecided, to_poly
 
 
+_STATE_CTORS = {"dict", "list", "set", "OrderedDict", "WeakKeyDictionary", "WeakValueDictionary", "WeakSet"}
+
+
+def _is_plain_state(v):
+    """a constant, a container display of such, or an empty container constructor: module-level defaults and caches"""
+    if isinstance(v, ast.Constant):
+        return True
+    if isinstance(v, (ast.List, ast.Tuple, ast.Set)):
+        return all(_is_plain_state(x) for x in v.elts)
+    if isinstance(v, ast.Dict):
+        return all(k is not None and _is_plain_state(k) and _is_plain_state(x) for k, x in zip(v.keys, v.values))
+    if isinstance(v, ast.UnaryOp) and isinstance(v.op, ast.USub):
+        return _is_plain_state(v.operand)
+    if isinstance(v, ast.Call) and not v.args and not v.keywords and (A.dotted(v.func) or "").split(".")[-1] in _STATE_CTORS:
+        return True
+    return False
+
+
 class Instance(Obj):
     def __init__(self, cls):
         super().__init__(cls.name, {})
@@ -31,10 +49,13 @@ class World:
         self.funcs = {}
         self.ext = None
         self.calls = []  # (kind, name) trace of interpreted callees
+        self._seen_modules = set()
+        self._pending_modules = []
 
     def add_class(self, cls):
         self.classes[cls.name] = cls
         self.ext = None
+        self._note_module(getattr(cls, "module", None))
         return self
 
     def methods_of(self, cls, _seen=None):
@@ -48,9 +69,38 @@ class World:
         out.update(cls.methods)
         return out
 
+    def load_globals(self, module, skip=()):
+        """Module-level state of an interpreted module: every top-level `NAME = <display / constant / constructor call>`
+        becomes ONE object of the module environment, shared by all later calls in this world -- a module-level cache or
+        default that the code keeps between calls is then visible to history rules.  Names already present are kept;
+        values the interpreter cannot build are left out (a read of such a name makes the fragment undecided)."""
+        for st in module.tree.body:
+            if isinstance(st, ast.Assign):
+                targets, value = st.targets, st.value
+            elif isinstance(st, ast.AnnAssign) and st.value is not None:
+                targets, value = [st.target], st.value
+            else:
+                continue
+            for t in targets:
+                if not isinstance(t, ast.Name) or t.id in self.module_env or t.id in skip:
+                    continue
+                if not _is_plain_state(value):
+                    continue
+                try:
+                    self.module_env[t.id] = Interp(dict(self.module_env), {}, self.region, externals=self.externals()).eval(value)
+                except Exception:  # noqa: BLE001 -- not modelled: stays unknown
+                    continue
+        return self
+
+    def _note_module(self, module):
+        if module is not None and getattr(module, "relpath", None) not in self._seen_modules:
+            self._seen_modules.add(module.relpath)
+            self._pending_modules.append(module)
+
     def add_func(self, f):
         self.funcs[f.node.name] = f
         self.ext = None
+        self._note_module(getattr(f, "module", None))
         return self
 
     # ---- binding
@@ -131,6 +181,8 @@ class World:
         ext["__getitem__"] = self.get_item
         ext["__bool__"] = self.truth
         self.ext = ext
+        while self._pending_modules:  # module-level containers / constants of the interpreted modules (shared state)
+            self.load_globals(self._pending_modules.pop())
         return ext
 
     # ---- foreign (non-repo) base classes: name -> {method: python callable(inst, args, kwargs)}
